@@ -20,6 +20,18 @@ CHECKS = {
         design="DESIGN.md section 4 (C02)"),
 }
 
+CHECKS["C01"] = dict(
+    engine="E2 pysym (re-executing DSE of the real FilReader.read_plan + FileReader stack) + z3",
+    technique="dynamic symbolic execution of the real read_plan/creadinto/seek bytecode over symbolic raw files; z3 (LIA+UF) decides tiling/value obligations per path; models replayed on the real FilReader",
+    text="Bounded symbolic model checking of the block plan: N, gulp, start, nsamps (or None), skipback and the per-file sample counts are "
+         "unbounded integers, the file set has 1..3 files, every depth {1,2,4,8,16,32}; every feasible path with at most 3 (quick) / 5 (thorough) "
+         "blocks is executed on the real bytecode. Per path z3 proves: rejection only before the first yield, never for 2*skipback<=gulp, always "
+         "for skipback>=gulp; each block is the stream slice at start+sum(len-skipback), 1<=len<=gulp, count=len/nchans, inside the request, "
+         "last block ends at start+nsamps; every yielded element equals the model value (Skolem index, uninterpreted byte stream).",
+    note="Trusted: io.FileIO/np.frombuffer semantics, C03 bit-kernel contracts, default allocator. Plans with more blocks than the bound or "
+         "initial quotient nsamps//(gulp-skipback) above it are cut (counted in the evidence) and outside the claim.",
+    design="DESIGN.md section 4 (C01)")
+
 NOT_APPLICABLE = {}
 
 PENDING = "check not built yet in this round (see DESIGN.md section 8 for the build order); no claim is made"
